@@ -11,6 +11,7 @@
 (*   fnend(e, ok, v)       execution e returns value v or an error         *)
 (*   ret(t, ok, v)         the call of thread t returns                    *)
 (*   adv(d)                the clock jumps                                 *)
+(*   sweep                 Cache.DeleteExpired() was called                *)
 (*   end(B)                nothing can move; threads B never returned      *)
 (* What is NOT recorded - the cache lookup, joining an execution in        *)
 (* flight, storing the value, releasing the flight - are internal steps    *)
@@ -80,6 +81,10 @@ Returnable(s, t, ok, v) ==
 Apply(s, op) ==
     CASE op.n = "new"     -> { [S0 EXCEPT !.exp = op.a[1]] }
       [] op.n = "adv"     -> { [s EXCEPT !.now = @ + op.a[1]] }
+      \* Cache.DeleteExpired (what the background cleanup does on a tick): expired entries go, live ones stay
+      [] op.n = "sweep"   -> LET sure == { k \in DOMAIN s.cache : s.cache[k] # <<>> /\ s.cache[k][1].dl > 0 /\ s.now > s.cache[k][1].dl }
+                                 edge == { k \in DOMAIN s.cache : s.cache[k] # <<>> /\ s.cache[k][1].dl > 0 /\ s.now = s.cache[k][1].dl }
+                             IN  { [s EXCEPT !.cache = [k \in DOMAIN s.cache |-> IF k \in sure \cup e THEN <<>> ELSE s.cache[k]]] : e \in SUBSET edge }
       [] op.n = "inv"     -> { [s EXCEPT !.pc = Set(@, op.a[1], Pc("called", op.a[2], 0, 0))] }
       \* at no instant are two executions for one key in progress; none starts while a cached value is live
       [] op.n = "fnstart" -> LET t == op.a[1]  k == op.a[2]  e == op.a[3] IN
